@@ -376,6 +376,21 @@ func (t *Teamserver) ListenerServiceExc2Add(Name, ExEndpoint string, client *ser
 	return nil
 }
 
+// ListenerServiceExc2Remove
+// removes every external c2 listener (and its endpoint) that has been started by the given service client.
+func (t *Teamserver) ListenerServiceExc2Remove(client *service.ClientService) {
+	for i := 0; i < len(t.Listeners); {
+		if ExtConfig, ok := t.Listeners[i].Config.(*handlers.External); ok && ExtConfig.Data != nil {
+			if owner, ok := ExtConfig.Data["client"].(*service.ClientService); ok && owner == client {
+				t.EndpointRemove(ExtConfig.Config.Endpoint)
+				t.Listeners = append(t.Listeners[:i], t.Listeners[i+1:]...)
+				continue
+			}
+		}
+		i++
+	}
+}
+
 // ListenerStartNotify
 // Notifies the clients of a new listener that is available to use.
 func (t *Teamserver) ListenerStartNotify(Listener map[string]any) {
